@@ -13,4 +13,5 @@ MODULES = [
     "contracts.dirac",
     "contracts.special",
     "contracts.cov",
+    "contracts.fmt",
 ]
